@@ -64,6 +64,11 @@ Next ==
           /\ (S # {} => ("snapfail" \in Ops /\ Cardinality(S) = 1))
           /\ SnapCount < MaxSnap
           /\ Snapshot(n, S))
+    \* (environment: a volume is reverted to a snapshot the checkpoint does not lie above)
+    \/ ("revert" \in Ops /\ \E n \in SnapNames : \E F \in SUBSET Addr :
+          /\ (F # {} => ("snapfail" \in Ops /\ Cardinality(F) = 1))
+          /\ checkpoint = ""
+          /\ RevertVol(n, F))
     \/ \E a \in Addr : rstate[a] = "open" /\ ReplicaRestart(a)
     \/ ("oob" \in Ops /\ \E k \in {"Write", "Read"} : OobIO(k))
     \/ ("oob" \in Ops /\ RegisterQuorum)
